@@ -217,7 +217,16 @@ def run_stream(ts, op):
     drop = bool(ts.run.cfg.get("drop"))  # the consumer keeps no envelope object (only the checker's copies exist)
     budget = cons.get("n") if cons["k"] == "take" else None
     mem = op.get("events") or {}  # hand-built source events (no file involved) for some positions
-    it = iter(SourceEvents([p for i, p in enumerate(paths) if str(i) not in mem]).enum())
+    src_obj = SourceEvents([p for i, p in enumerate(paths) if str(i) not in mem])
+    if op.get("reenum"):
+        # the same SourceEvents object enumerated once before (a first pass that is abandoned after one event)
+        try:
+            next(iter(src_obj.enum()), None)
+        except (SimCancelled, SimKilled):
+            raise
+        except Exception:  # noqa: BLE001 - an unreadable first path: the abandoned pass just ends there
+            pass
+    it = iter(src_obj.enum())
     d_op = len(ctx.draws)
     sources, taken, stop = [], 0, False
     for pi, path in enumerate(paths):
